@@ -43,6 +43,8 @@ pub fn scenarios(thorough: bool) -> Vec<Scenario> {
     bc.mints = false;
     bc.overpay = false;
     v.extend(boundary_scenarios(&bc, if thorough { 7 } else { 5 }, thorough));
+    // other genesis configurations: initial coin in SYM / ERG / very large MEL, a non-empty initial fee pool, stakes from block 0
+    v.extend(genesis_scenarios(["custom02-genesis-sym-feepool-stake", "custom02-genesis-erg-fees-stakes", "custom02-genesis-huge-mel-feepool"], NetID::Custom02, &pool_cfg(), if thorough { 7 } else { 5 }));
     if thorough {
         v.push(sc("testnet-pools", NetID::Testnet, 0, pool_cfg(), 7));
         v.push(sc("custom08-pools", NetID::Custom08, 0, pool_cfg(), 7));
